@@ -410,7 +410,7 @@ def exec_payload(ctx, h, scratch):
     # from head; WOFF2 transforms glyf/loca/hmtx and reads head/maxp/hhea/fvar for
     # that): re-saving those *undecodable* in that flavour is not something the
     # clause can ask for, so such pairs are explored and counted, not judged.
-    interpreted = {"woff": {"head"}, "woff2": {"head", "glyf", "loca", "hmtx", "hhea", "maxp", "fvar", "gvar"}}.get(h["flavor"], set())
+    interpreted = {"woff": {"head"}, "woff2": {"head", "glyf", "loca", "hmtx", "hhea", "maxp", "fvar", "gvar", "DSIG"}}.get(h["flavor"], set())
     judged = tag not in interpreted
     f.flavor = h["flavor"]
     try:
@@ -430,6 +430,10 @@ def exec_payload(ctx, h, scratch):
             "sig": {"tag": tag, "clause": "b2", "exc": type(e).__name__, "site": site},
         }
         _match_known(h, res)
+        return res
+    if h["flavor"] == "woff2" and tag == "DSIG":
+        # WOFF2 drops DSIG by specification (the encoding invalidates signatures)
+        probes["b.ext.woff2_drops_DSIG"] = 1
         return res
     try:
         if h["flavor"] == "woff2":
